@@ -344,6 +344,10 @@ def gen_instance(rng, *, d=None, k=None, N=None, vtype="sympy", fdkind=None,
             inst["fd_blocks"] if inst["fdkind"] == "tuple" else [])}), {}
         if not well_posed(inst):
             raise Regenerate("corner instance ill posed")
+    if all(epair(e) == (0, 0) for e in inst["E"]):
+        # H_0 = 0 is refused up front by block_diagonalize ("The diagonal of the unperturbed Hamiltonian
+        # may not be zero"): not an accepted input, so not in the scope of C01-C05 / C13-C15
+        raise Regenerate("H_0 vanishes identically")
     inst["basis"] = None
     if basis == "pairs":
         M, Mi = unimodular_pair(rng, d, complex_)
@@ -501,6 +505,44 @@ def present(inst):
     if fmt == "analytic":
         total, syms = inst["_analytic"]
         return total, dict(symbols=syms), ident_map
+    if fmt in ("blocklist", "blockdict", "blockseries2") and not inst.get("basis"):
+        # pre-blocked containers: every term is a nested list [[H_00, H_01, ..], ..] of its blocks
+        # (states of block b in their original order); no subspace designation is passed
+        nb = len(inst["sizes"])
+        idx = [[i for i in range(inst["d"]) if inst["sub_idx"][i] == b] for b in range(nb)]
+
+        def blocks(v):
+            if isinstance(v, sympy.MatrixBase):
+                return [[v.extract(idx[i], idx[j]) for j in range(nb)] for i in range(nb)]
+            if hasattr(v, "toarray"):
+                vv = v.tocsr()
+                return [[vv[idx[i], :][:, idx[j]] for j in range(nb)] for i in range(nb)]
+            return [[v[np.ix_(idx[i], idx[j])] for j in range(nb)] for i in range(nb)]
+
+        pre = dict(__preblocked__=True)
+        if fmt == "blocklist" and first_only:
+            zero_like = H[(0,) * k] * 0
+            return [blocks(H[(0,) * k])] + [blocks(H.get(tuple(int(i == j) for i in range(k)), zero_like))
+                                            for j in range(k)], pre, ident_map
+        if fmt == "blockseries2":
+            from pymablock.series import BlockSeries
+
+            data = {}
+            for n, v in H.items():
+                for i, row in enumerate(blocks(v)):
+                    for j, blk in enumerate(row):
+                        # a BlockSeries is taken as it is: vanishing blocks are simply absent (an explicit
+                        # zero ARRAY as an off-diagonal H_0 block is refused with ValueError)
+                        if isinstance(blk, sympy.MatrixBase):
+                            present_ = blk.is_zero_matrix is not True
+                        elif hasattr(blk, "nnz"):
+                            present_ = (blk != 0).nnz > 0
+                        else:
+                            present_ = bool(np.any(blk != 0))
+                        if present_:
+                            data[(i, j, *n)] = blk
+            return BlockSeries(data=data, shape=(nb, nb), n_infinite=k), pre, ident_map
+        return {n: blocks(v) for n, v in H.items()}, pre, ident_map
     if fmt == "list" and first_only:
         zero_like = H[(0,) * k] * 0
         return [H[(0,) * k]] + [H.get(tuple(int(i == j) for i in range(k)), zero_like) for j in range(k)], {}, ident_map
@@ -508,7 +550,16 @@ def present(inst):
         from pymablock.series import BlockSeries
 
         return BlockSeries(data=dict(H), shape=(), n_infinite=k), {}, ident_map
+    if fmt in ("symkeys", "sympy_matrix") and len({j for n in H for j in range(k) if n[j]}) < k:
+        # symkeys: the library infers the parameters from the keys, a parameter without any term would
+        # silently not exist; sympy_matrix: "Not all perturbative parameters are in `hamiltonian`" (ValueError
+        # up front).  Either way not an input the relations are about.
+        raise Regenerate("a parameter has no term")
     if fmt == "symkeys":
+        if False:
+            # the library infers the parameters from the keys: a parameter without any term would
+            # silently not exist (fewer order indices) -- not an input the relations are about
+            raise Regenerate("a parameter has no term: monomial keys cannot express it")
         names = symbol_names(inst)
         syms = [sympy.Symbol(nm) for nm in names]
         out = {}
@@ -537,13 +588,14 @@ def run_block_diagonalize(inst, **kwargs):
 
     H, extra, pmap = present(inst)
     inst["_param_map"] = pmap
+    des = {} if extra.pop("__preblocked__", False) else designation(inst)
     with warnings.catch_warnings():
         warnings.simplefilter("ignore")
         outs = pymablock.block_diagonalize(
             H,
             fully_diagonalize=fd_argument(inst),
             hermitian=inst.get("hermitian", True),
-            **designation(inst),
+            **des,
             **extra,
             **kwargs,
         )
